@@ -665,11 +665,49 @@ def tree_task(task, ctx: Ctx):
         check_tree(ctx, path, tier)
 
 
+def fixed_task(task, ctx: Ctx):
+    """a Padding sized as a FIXED widget (size ()), alone and as the packed top widget of an Overlay: presses and the cursor are translated by its margins"""
+    env.reset("utf-8")
+    for left in (0, 2, 4):
+        for right in (0, 1):
+            for wrap in ("direct", "overlay"):
+                ctx.count("evaluations")
+                p = Probe("F", ("fixed",), (3, 2), selectable=True, cursor=(1, 1))
+                pad = urwid.Padding(p, "left", "pack", left=left, right=right)
+                case = {"fixed": True, "left": left, "right": right, "wrap": wrap}
+                name = f"Padding[fixed,l{left}r{right}]" + ("/overlay-pack" if wrap == "overlay" else "")
+
+                def V(clause, detail, site=""):
+                    ctx.violation(clause, f"C09/{clause}/Padding-fixed/{wrap}{('/' + site) if site else ''}", case, detail)
+
+                try:
+                    if wrap == "direct":
+                        root, size, ox, oy = pad, (), 0, 0
+                    else:
+                        root, size, ox, oy = urwid.Overlay(pad, urwid.SolidFill("."), "left", "pack", "top", "pack"), (10, 4), 0, 0
+                    urwid.CanvasCache.clear()
+                    canv = root.render(size, True)
+                    cur = root.get_cursor_coords(size)
+                    if canv.cursor != cur or cur != (ox + left + 1, oy + 1):
+                        V("cursor-agrees", f"{name}: rendered cursor {canv.cursor}, reported {cur}, the leaf's cursor cell is {(ox + left + 1, oy + 1)}")
+                    for y in range(2):
+                        for x in range(3):
+                            del p.log[:]
+                            root.mouse_event(size, "mouse press", 1, ox + left + x, oy + y, True)
+                            got = [(e[4], e[5]) for e in p.log if e[0] == "mouse"]
+                            if got != [(x, y)]:
+                                V("hit", f"{name}: press on the leaf's cell ({x},{y}) (screen {(ox + left + x, oy + y)}) delivered {got}")
+                    ctx.distinct("nontrivial", ("fixed-padding", left, right, wrap))
+                except Exception as e:
+                    V("event-raises", f"{name}: {type(e).__name__}: {e}", site=exc_site(e))
+
+
 def run(tier, R):
     paths = G.trees(tier)
     n = 6 if tier == "quick" else 4
     tasks = [(tier, paths[i : i + n]) for i in range(0, len(paths), n)]
     R.run_tasks(tree_task, tasks, recheck=0.03)
+    R.run_tasks(fixed_task, [("fixed",)], recheck=0.0)
     ev = int(R.ctx.counts["evaluations"])
     nt = len(R.ctx.sets.get("nontrivial", ()))
     cov = {
@@ -703,6 +741,9 @@ def run(tier, R):
 
 
 def replay(case, ctx):
+    if case.get("fixed"):
+        fixed_task(("fixed",), ctx)
+        return
     env.reset("utf-8")
 
     def tup(p):
